@@ -277,6 +277,57 @@ class Obligation:
 FEAS_TIMEOUT_MS = 3000
 
 
+class FreshSolver:
+    """Assertion stack whose every check() runs on a fresh z3 solver.
+
+    Measured on this code base: z3's incremental mode (after push/pop) answers
+    the mixed datatype/array/string queries of the engine 100-200x slower than
+    a fresh solver given the same assertions, so nothing is kept between
+    checks but the assertion stack itself."""
+
+    def __init__(self):
+        self.stack = [[]]
+        self.params = {}
+        self.last = None
+
+    def set(self, k, v):
+        self.params[k] = v
+
+    def add(self, *fs):
+        self.stack[-1].extend(fs)
+
+    def push(self):
+        self.stack.append([])
+
+    def pop(self):
+        self.stack.pop()
+
+    def num_scopes(self):
+        return len(self.stack) - 1
+
+    def assertions(self):
+        return [f for fr in self.stack for f in fr]
+
+    def check(self, *extra):
+        s = z3.Solver()
+        for k, v in self.params.items():
+            s.set(k, v)
+        for f in self.assertions():
+            s.add(f)
+        for f in extra:
+            s.add(f)
+        for f in vals.AXIOMS:
+            s.add(f)
+        self.last = s
+        return s.check()
+
+    def model(self):
+        return self.last.model()
+
+    def reason_unknown(self):
+        return self.last.reason_unknown()
+
+
 class Path:
     """One execution path: decision prefix, path condition, heap, solver."""
 
@@ -286,14 +337,22 @@ class Path:
         self.decisions = []
         self.labels = []
         self.pc = []
-        self.solver = z3.Solver()
+        self.solver = FreshSolver()
         self.solver.set('timeout', FEAS_TIMEOUT_MS)
         self.solver.set('random_seed', engine.seed)
+        # feasibility / entailment queries run without array extensionality: cheaper,
+        # and only ever weaker (more paths feasible, fewer facts entailed); proof
+        # obligations are discharged by a fresh solver with the default theory
+        self.solver.set('smt.array.extensional', False)
         self.heap = {}
         self.nalloc = 0
         self.fresh_n = 0
         self.obligs = []
         self.qdefs = []          # definitions of the Bools that abstract quantified formulas
+        self.quants = []
+        self.indices = []
+        self.lits = [set()]
+        self.lit_keep = []
         self.trace = []          # ghost effect trace (fs effects, emitted segments)
         self.ghost = {}
 
@@ -303,6 +362,7 @@ class Path:
             return
         self.pc.append(cond)
         self.solver.add(cond)
+        self.engine._literals(cond, self.lits[0])
 
     def check(self, cond=None, timeout=None):
         s = self.solver
@@ -311,11 +371,7 @@ class Path:
         try:
             if cond is None:
                 return s.check()
-            s.push()
-            s.add(cond)
-            r = s.check()
-            s.pop()
-            return r
+            return s.check(cond)
         finally:
             if timeout:
                 s.set('timeout', FEAS_TIMEOUT_MS)
@@ -361,21 +417,69 @@ class Path:
         k = self.choose([cs, z3.Not(cs)], [label + ':T', label + ':F'])
         return k == 0
 
-    def quant(self, q):
+    def quant(self, q, src=None):
         """Abstract a quantified formula by a fresh Bool: the feasibility
-        solver only sees the Bool, ``prove`` adds its definition."""
+        solver only sees the Bool, ``prove`` adds its definition.  ``src`` (the
+        length term of the collection the bound index ranges over) limits the
+        instantiation to index terms of the same collection."""
         self.fresh_n += 1
         b = z3.Bool('q!%d' % self.fresh_n)
         self.qdefs.append(b == q)
+        sid = vals.tid(z3.simplify(src)) if src is not None else None
+        self.quants.append((b, q, sid))
+        for (_, k, ksid) in self.indices:
+            if sid is None or ksid is None or sid == ksid:
+                self._instance(b, q, k)
+        # one round of skolemisation: a witness constant for the case where a
+        # universal is false / an existential is true; the witness is itself an
+        # instantiation point of every other quantified fact
+        if z3.is_quantifier(q) and q.num_vars() == 1 and q.var_sort(0) == z3.IntSort():
+            sk = z3.Int('sk!%d' % self.fresh_n)
+            body = z3.substitute_vars(q.body(), sk)
+            fact = z3.Implies(z3.Not(b), z3.Not(body)) if q.is_forall() else z3.Implies(b, body)
+            self._add_fact(fact)
+            self.index(sk, src)
+            self.engine.scan_instance(body)
         return b
+
+    def _add_fact(self, fact):
+        if self.engine.scopes:
+            self.engine.scoped_assume(fact)
+        else:
+            self.solver.add(fact)
+            self.pc.append(fact)
+
+    def _instance(self, b, q, k):
+        """consequence of ``b == q`` at index term k (q has one bound Int)"""
+        if not z3.is_quantifier(q) or q.num_vars() != 1 or q.var_sort(0) != z3.IntSort():
+            return
+        body = z3.substitute_vars(q.body(), k)
+        if q.is_forall():
+            fact = z3.Implies(b, body)
+        else:
+            fact = z3.Implies(body, b)
+        self._add_fact(fact)
+        self.engine.scan_instance(body)
+
+    def index(self, k, src=None):
+        """register an index term at which the quantified facts (over the same
+        collection) are instantiated"""
+        sid = vals.tid(z3.simplify(src)) if src is not None else None
+        kid = vals.tid(k)
+        if any(x == kid and y == sid for (x, _, y) in self.indices):
+            return
+        self.indices.append((kid, k, sid))
+        for (b, q, qsid) in list(self.quants):
+            if sid is None or qsid is None or sid == qsid:
+                self._instance(b, q, k)
 
     def fresh(self, name, sort=None):
         self.fresh_n += 1
-        return z3.Const('%s!%d' % (name, self.fresh_n), sort if sort is not None else Val)
+        return z3.Const('%s!%d' % (name, self.fresh_n), sort if sort is not None else vals.VS)
 
     def heap_arr(self, attr):
         if attr not in self.heap:
-            self.heap[attr] = z3.Const('H0_' + attr, z3.ArraySort(z3.IntSort(), Val))
+            self.heap[attr] = z3.Const('H0_' + attr, z3.ArraySort(z3.IntSort(), vals.VS))
         return self.heap[attr]
 
     def alloc(self, cls_id_term):
@@ -471,14 +575,40 @@ class Engine:
         return Engine._objids[k][0]
 
     # ---------------------------------------------------------- truthiness
+    def scan_instance(self, body):
+        """A new instance of a quantified fact may contain applications of
+        symbols that carry axiom schemas of their own (ClassAttr: inheritance
+        and slot axioms; FieldIndex: an index into the field list): instantiate
+        those schemas for the new terms (what E-matching would do)."""
+        hooks = getattr(self, 'instance_hooks', None)
+        if not hooks:
+            return
+        seen = self.path.ghost.setdefault('scan_seen', set())
+        stack = [body]
+        while stack:
+            t = stack.pop()
+            k = vals.tid(t)
+            if k in seen:
+                continue
+            seen.add(k)
+            if z3.is_app(t):
+                name = t.decl().name()
+                h = hooks.get(name)
+                if h is not None:
+                    h(t)
+                stack.extend(t.children())
+            elif z3.is_quantifier(t):
+                stack.append(t.body())
+
+    def axiom(self, fact):
+        """A universally valid fact about uninterpreted symbols (instance of an
+        axiom schema): holds on every path and in every scope."""
+        vals._axiom(('ax', vals.tid(fact)), fact)
+
     def strlen(self, s):
         n = vals.strlen(s)
-        if self.path is not None:
-            key = ('strlen', s.get_id())
-            if key not in self.path.ghost:
-                self.path.ghost[key] = s
-                for ax in vals.strlen_axioms(s):
-                    self.scoped_assume(ax)
+        for ax in vals.strlen_axioms(s):
+            self.axiom(ax)
         return n
 
     def truthy_term(self, t):
@@ -546,14 +676,51 @@ class Engine:
             return False
         if self.path is None:
             return False
-        cache = self.path.ghost.setdefault(('must', len(self.scopes), tuple(x.get_id() for x in self.scopes)), {})
-        k = c.get_id()
+        if self._known(c):
+            return True
+        skey = tuple(vals.tid(x) for x in self.scopes)
+        cache = self.path.ghost.setdefault(('must', skey), {})
+        k = vals.tid(c)
         if k in cache:
-            return cache[k][0]
+            return True
+        ncache = self.path.ghost.setdefault(('mustnot', skey, len(self.path.pc)), {})
+        if k in ncache:
+            return False
         r = self.path.check(z3.Not(c)) == z3.unsat
         if r:
-            cache[k] = (True, c)
+            cache[k] = c
+        else:
+            ncache[k] = c
         return r
+
+    def _literals(self, f, out):
+        if z3.is_and(f):
+            for ch in f.children():
+                self._literals(ch, out)
+        else:
+            out.add(vals.tid(f))
+            self.path.lit_keep.append(f)
+
+    def note_fact(self, f):
+        """index the literals of an assumed formula for syntactic entailment"""
+        self._literals(f, self.path.lits[-1])
+
+    def _known(self, c):
+        lits = self.path.lits
+        def has(x):
+            i = vals.tid(x)
+            return any(i in s for s in lits)
+        def rec(x, depth):
+            if has(x):
+                return True
+            if depth > 3:
+                return False
+            if z3.is_and(x):
+                return all(rec(ch, depth + 1) for ch in x.children())
+            if z3.is_or(x):
+                return any(rec(ch, depth + 1) for ch in x.children())
+            return False
+        return rec(c, 0)
 
     def bool_sv(self, b):
         if isinstance(b, bool):
@@ -584,7 +751,8 @@ class Engine:
         if self.merge:
             # in merge mode failure conditions are collected, not forked
             if self.fail_conds is not None and not self.must(z3.Not(cond)):
-                self.fail_conds.append((cond, exc_cls, label))
+                g = z3.And(*(self.scope_names + [cond])) if self.scopes else cond
+                self.fail_conds.append((g, exc_cls, label))
             return
         if self.must(z3.Not(cond)):
             return
@@ -839,6 +1007,25 @@ class Engine:
     def st_Expr(self, st, fr):
         if isinstance(st.value, ast.Constant):
             return      # docstring
+        v = st.value
+        if isinstance(v, ast.Call) and isinstance(v.func, ast.Attribute) and v.func.attr == 'update' \
+                and isinstance(v.func.value, ast.Name) and len(v.args) == 1 and not v.keywords:
+            cur = self.eval(v.func.value, fr)
+            if isinstance(cur, (SDict, T)):
+                arg = self.eval(v.args[0], fr)
+                if isinstance(arg, T) or isinstance(cur, T):
+                    # d.update(m) on a local dict with a symbolic operand: functional update + rebind
+                    from . import builtins_model
+                    a = cur if isinstance(cur, T) else T(self.lift(cur))
+                    b = arg if isinstance(arg, T) else T(self.lift(arg))
+                    if not isinstance(cur, T):
+                        pass
+                    self.fail_if(z3.Not(Val.is_VDict(b.t)), TypeError, 'update with a non-mapping')
+                    self.assign(v.func.value, builtins_model.dict_update(self, a, b), fr)
+                    return
+                if isinstance(cur, SDict) and isinstance(arg, SDict):
+                    cur.d.update(arg.d)
+                    return
         self.eval(st.value, fr)
 
     def st_Pass(self, st, fr):
@@ -881,6 +1068,16 @@ class Engine:
         elif isinstance(tgt, ast.Subscript):
             obj = self.eval(tgt.value, fr)
             idx = self.eval(tgt.slice, fr)
+            if isinstance(obj, T) and isinstance(tgt.value, ast.Name):
+                # item store on a symbolic dict held in a local: functional update + rebind
+                # (sound while the dict is not aliased; it is created in the function)
+                from . import builtins_model
+                self.assign(tgt.value, builtins_model.dict_store(self, obj, idx, v), fr)
+                return
+            if isinstance(obj, SDict) and not isinstance(idx, C) and isinstance(tgt.value, ast.Name):
+                from . import builtins_model
+                self.assign(tgt.value, builtins_model.dict_store(self, T(self.lift(obj)), idx, v), fr)
+                return
             self.setitem(obj, idx, v, tgt)
         else:
             self.unsupported(tgt, 'assignment target')
@@ -1380,12 +1577,8 @@ class Engine:
         if getattr(self, 'exact_i2f', False):
             return z3.fpToFP(vals.RNE, z3.ToReal(it), vals.FP)
         f = vals.I2F(it)
-        if self.path is not None:
-            key = ('i2f', it.get_id())
-            if key not in self.path.ghost:
-                self.path.ghost[key] = True
-                for ax in vals.i2f_axioms(it):
-                    self.path.assume(ax)
+        for ax in vals.i2f_axioms(it):
+            self.axiom(ax)
         return f
 
     def compare(self, op, a, b, node):
@@ -1611,11 +1804,25 @@ class _Scope:
     def __enter__(self):
         E = self.E
         p = E.path
+        # the scope condition gets a name, so that facts recorded under the
+        # scope are guarded by a small literal instead of a copy of the condition
+        key = ('scopename', vals.tid(self.cond))
+        if key not in p.ghost:
+            p.fresh_n += 1
+            b = z3.Bool('sc!%d' % p.fresh_n)
+            p.ghost[key] = b
+            p.solver.stack[0].append(b == self.cond)
+            p.pc.append(b == self.cond)
+        self.name = p.ghost[key]
         p.solver.push()
         p.solver.add(self.cond)
+        p.solver.add(self.name)
         E.scopes.append(self.cond)
+        E.scope_names.append(self.name)
+        p.lits.append(set())
+        E._literals(z3.simplify(self.cond), p.lits[-1])
         self.saved_ghost = p.ghost
-        p.ghost = dict((k, v) for k, v in p.ghost.items() if not (isinstance(k, tuple) and k and k[0] == 'cands'))
+        p.ghost = dict((k, v) for k, v in p.ghost.items() if not (isinstance(k, tuple) and k and k[0] in ('cands', 'candsg')))
         return self
 
     def __exit__(self, *a):
@@ -1623,9 +1830,11 @@ class _Scope:
         p = E.path
         p.solver.pop()
         E.scopes.pop()
+        E.scope_names.pop()
+        p.lits.pop()
         # keep non-class-candidate ghost entries created inside
         for k, v in p.ghost.items():
-            if not (isinstance(k, tuple) and k and k[0] == 'cands'):
+            if not (isinstance(k, tuple) and k and k[0] in ('cands', 'candsg')):
                 self.saved_ghost.setdefault(k, v)
         p.ghost = self.saved_ghost
         # re-add facts assumed inside the scope (they were recorded guarded)
@@ -1638,6 +1847,7 @@ class _Scope:
 
 def _engine_init_merge(self):
     self.scopes = []
+    self.scope_names = []
     self.deferred = []
     self.binders = 0
     self.unfold_depth = 0
@@ -1655,7 +1865,7 @@ def _scoped_assume(self, fact):
     if not self.scopes:
         p.assume(fact)
         return
-    g = z3.Implies(z3.And(*self.scopes), fact)
+    g = z3.Implies(z3.And(*self.scope_names), fact)
     p.pc.append(g)
     p.solver.add(fact)
     self.deferred.append(g)
@@ -1775,7 +1985,7 @@ def _mentions_binder(terms, nb):
     stack = list(terms)
     while stack:
         t = stack.pop()
-        k = t.get_id()
+        k = vals.tid(t)
         if k in seen:
             continue
         seen.add(k)
@@ -1840,7 +2050,7 @@ def _spec_uf(self, fn, args, kwargs):
     extra = [self.path.heap[a] for a in reads if a in self.path.heap and
              not (z3.is_const(self.path.heap[a]) and self.path.heap[a].decl().name() == 'H0_' + a)]
     name += ''.join('' for _ in extra)
-    sorts = [Val] * len(terms) + [e.sort() for e in extra]
+    sorts = [vals.VS] * len(terms) + [e.sort() for e in extra]
     allargs = terms + extra
     if extra:
         name += '_h' + '_'.join(a for a in reads if a in self.path.heap and not (
@@ -1852,24 +2062,31 @@ def _spec_uf(self, fn, args, kwargs):
     elif kind == 'outcome':
         f1 = z3.Function(name + '_israise', *(sorts + [z3.BoolSort()]))
         f2 = z3.Function(name + '_cls', *(sorts + [z3.IntSort()]))
-        f3 = z3.Function(name + '_val', *(sorts + [Val]))
+        f3 = z3.Function(name + '_val', *(sorts + [vals.VS]))
         res = SOutcome(f1(*allargs), f2(*allargs), f3(*allargs))
         app = f3(*allargs)
     else:
-        f = z3.Function(name, *(sorts + [Val]))
+        f = z3.Function(name, *(sorts + [vals.VS]))
         app = f(*allargs)
         res = T(app)
-    key = (fn.__name__,) + tuple(t.get_id() for t in allargs)
-    if not _mentions_binder(allargs, self.binders) and self.unfold_depth < getattr(fn, '_unfold', 1):
+    # the definitional equation is recorded guarded by the scope it was
+    # evaluated in, so it is re-derived when the same application occurs under
+    # different scope conditions
+    key = (fn.__name__,) + tuple(vals.tid(t) for t in allargs) + ('|',) + tuple(vals.tid(x) for x in self.scopes)
+    stack = self.__dict__.setdefault('unfold_stack', [])
+    allowed = getattr(self, 'unfold_only', None)
+    if not _mentions_binder(allargs, self.binders) and self.unfold_depth < 1000 \
+            and (allowed is None or fn.__name__ in allowed) \
+            and stack.count(fn.__name__) < getattr(fn, '_unfold', 1) and len(stack) < 5:
         if self.unfolded is None:
             self.unfolded = {}
         if key not in self.path.ghost.setdefault('unfolded', {}):
             self.path.ghost['unfolded'][key] = allargs   # keep terms alive
-            self.unfold_depth += 1
+            stack.append(fn.__name__)
             try:
                 body = self._spec_inline(fn, args, kwargs)
             finally:
-                self.unfold_depth -= 1
+                stack.pop()
             if kind == 'bool':
                 self.scoped_assume(app == _zb(self.truth(body)))
             elif kind == 'outcome':
@@ -1923,6 +2140,9 @@ def _elem_source(self, it, node):
             return V.tlen(t), (lambda i: T(z3.Select(V.tarr(t), i)))
         if self.must(isd):
             return V.dn(t), (lambda i: T(z3.Select(V.dk(t), i)))
+        if self.must(V.is_VSet(t)):
+            # iteration order of a set: an unconstrained (but fixed) enumeration
+            return V.sn(t), (lambda i: T(z3.Select(V.sk(t), i)))
         if self.must(z3.Or(isl, ist)):
             n = z3.If(isl, V.llen(t), V.tlen(t))
             arr = z3.If(isl, V.larr(t), V.tarr(t))
@@ -1971,6 +2191,7 @@ def _symbolic_comprehension(self, node, it, fr, kind):
     self.binders += 1
     try:
         with self.assuming(rng):
+            self.path.index(i, n)
             self.assign(g.target, elem(i), sub)
             if kind == 'dict':
                 kt = self.lift(self.eval(node.key, sub))
@@ -1985,7 +2206,7 @@ def _symbolic_comprehension(self, node, it, fr, kind):
         self.fail_conds, self.pre_conds = old_f, old_p
     # preconditions of calls made per element
     if pres:
-        goal = self.path.quant(z3.ForAll([i], z3.Implies(rng, z3.And(*pres))))
+        goal = self.path.quant(z3.ForAll([i], z3.Implies(rng, z3.And(*pres))), n)
         self.require(goal, 'pre(elementwise)@%s' % node.lineno)
     if kind == 'gen':
         return SQuant(i, n, ev, fails)
@@ -1995,7 +2216,7 @@ def _symbolic_comprehension(self, node, it, fr, kind):
             classes = set(k for (_, k, _) in fails)
             if len(classes) != 1:
                 raise Unsupported('element computation may raise different exception classes')
-            anyf = self.path.quant(z3.Exists([i], z3.And(rng, z3.Or(*[c for (c, _, _) in fails]))))
+            anyf = self.path.quant(z3.Exists([i], z3.And(rng, z3.Or(*[c for (c, _, _) in fails]))), n)
             if self.fail_conds is not None:
                 self.fail_conds.append((anyf, list(classes)[0], 'comprehension element'))
         else:
@@ -2003,7 +2224,7 @@ def _symbolic_comprehension(self, node, it, fr, kind):
             for (_, k, _) in fails:
                 if k not in classes:
                     classes.append(k)
-            anyf = self.path.quant(z3.Exists([i], z3.And(rng, z3.Or(*[c for (c, _, _) in fails]))))
+            anyf = self.path.quant(z3.Exists([i], z3.And(rng, z3.Or(*[c for (c, _, _) in fails]))), n)
             if self.path.branch(anyf, 'comp-elem-raises@%s' % node.lineno):
                 if len(classes) == 1:
                     self.raise_(classes[0], 'comprehension element')
@@ -2011,7 +2232,8 @@ def _symbolic_comprehension(self, node, it, fr, kind):
                 j = self.path.fresh('firstfail', z3.IntSort())
                 anyc = z3.Or(*[c for (c, _, _) in fails])
                 self.path.assume(z3.And(j >= 0, j < n, z3.substitute(anyc, (i, j)),
-                                        self.path.quant(z3.ForAll([i], z3.Implies(z3.And(i >= 0, i < j), z3.Not(anyc))))))
+                                        self.path.quant(z3.ForAll([i], z3.Implies(z3.And(i >= 0, i < j), z3.Not(anyc))), n)))
+                self.path.index(j, n)
                 conds = []
                 for k in classes:
                     ck = z3.Or(*[c for (c, kk, _) in fails if kk is k])
@@ -2034,8 +2256,8 @@ def _symbolic_comprehension(self, node, it, fr, kind):
         import hashlib
         n, kt, vt = z3.simplify(n), z3.simplify(kt), z3.simplify(vt)
         text = '%s|%s|%s' % (n.sexpr(), kt.sexpr(), vt.sexpr())
-        r = z3.Const('DictComp_' + hashlib.sha1(text.encode()).hexdigest()[:16], Val)
-        self.scoped_assume(Val.is_VDict(r))
+        r = z3.Const('DictComp_' + hashlib.sha1(text.encode()).hexdigest()[:16], vals.VS)
+        self.axiom(Val.is_VDict(r))
         self.path.ghost.setdefault('dictcomps', {})[r.decl().name()] = (n, i, kt, vt)
         return T(r)
     raise Unsupported('%s comprehension over a symbolic sequence' % kind)
@@ -2054,3 +2276,168 @@ def _require(self, goal, name):
 Engine._elem_source = _elem_source
 Engine.symbolic_comprehension = _symbolic_comprehension
 Engine.require = _require
+
+
+# ============================================================================
+# loops over symbolic sequences: first-match summary and invariant cut
+
+
+def _assigned_names(stmts):
+    out = set()
+    for st in stmts:
+        for n in ast.walk(st):
+            if isinstance(n, ast.Name) and isinstance(n.ctx, (ast.Store, ast.Del)):
+                out.add(n.id)
+            elif isinstance(n, ast.Subscript) and isinstance(n.ctx, ast.Store) and isinstance(n.value, ast.Name):
+                out.add(n.value.id)
+            elif isinstance(n, ast.Call) and isinstance(n.func, ast.Attribute) and isinstance(n.func.value, ast.Name) \
+                    and n.func.attr in ('append', 'extend', 'update', 'add', 'insert', 'pop', 'setdefault'):
+                out.add(n.func.value.id)
+    return out
+
+
+def _loop_ordinal(self, st, fr):
+    """1-based ordinal of loop ``st`` among the loops of its function (source order)."""
+    f = fr
+    while f is not None and f.fn is None:
+        f = f.parent
+    if f is None or f.fn is None:
+        return None, None
+    node = func_ast(f.fn)
+    loops = [n for n in ast.walk(node) if isinstance(n, (ast.For, ast.While))]
+    loops.sort(key=lambda n: (n.lineno, n.col_offset))
+    for k, n in enumerate(loops):
+        if n.lineno == st.lineno and n.col_offset == st.col_offset:
+            return f.fn, k + 1
+    return f.fn, None
+
+
+def _first_match_shape(st):
+    """``for x in xs: if c: raise ... / return <expr>`` -> the If node"""
+    if st.orelse or len(st.body) != 1 or not isinstance(st.body[0], ast.If):
+        return None
+    iff = st.body[0]
+    if iff.orelse or len(iff.body) != 1:
+        return None
+    if isinstance(iff.body[0], (ast.Raise, ast.Return)):
+        return iff
+    return None
+
+
+def _symbolic_for(self, st, it, fr):
+    fn, ordinal = self._loop_ordinal(st, fr)
+    inv = None
+    con = getattr(self, 'cur_con', None)
+    if con is not None and fn is getattr(self, 'cur_fn', None) and ordinal is not None:
+        inv = (getattr(con, 'loops', None) or {}).get(ordinal)
+    if inv is not None:
+        return self._loop_cut(st, it, fr, inv, ordinal)
+    iff = _first_match_shape(st)
+    if iff is None:
+        self.unsupported(st, 'for over a symbolic sequence without an invariant (loop %s)' % ordinal)
+    n, elem = self._elem_source(it, st)
+    i = z3.Int('li%d' % self.binders)
+    rng = z3.And(i >= 0, i < n)
+    sub = Frame(None, {}, fr.globals, fr, fr.defcls, '<loop>')
+    sub.filename = fr.filename
+    old_f, old_p = self.fail_conds, getattr(self, 'pre_conds', None)
+    self.fail_conds, self.pre_conds = [], []
+    self.merge += 1
+    self.binders += 1
+    try:
+        with self.assuming(rng):
+            self.path.index(i, n)
+            self.assign(st.target, elem(i), sub)
+            c = self.truth(self.eval(iff.test, sub))
+    finally:
+        self.binders -= 1
+        self.merge -= 1
+        fails, pres = self.fail_conds, self.pre_conds
+        self.fail_conds, self.pre_conds = old_f, old_p
+    if fails:
+        self.unsupported(st, 'loop test may raise (%s)' % ', '.join(l for (_, _, l) in fails))
+    if pres:
+        self.require(self.path.quant(z3.ForAll([i], z3.Implies(rng, z3.And(*pres))), n),
+                     'pre(elementwise)@%s' % st.lineno)
+    c = _zb(c)
+    anyc = self.path.quant(z3.Exists([i], z3.And(rng, c)), n)
+    if self.path.branch(anyc, 'first-match@%s' % st.lineno):
+        j = self.path.fresh('first', z3.IntSort())
+        self.path.assume(z3.And(j >= 0, j < n, z3.substitute(c, (i, j)),
+                                self.path.quant(z3.ForAll([i], z3.Implies(z3.And(i >= 0, i < j), z3.Not(c))), n)))
+        self.path.index(j, n)
+        self.assign(st.target, elem(j), fr)
+        self.exec_block(iff.body, fr)
+        raise Unsupported('first-match body fell through')
+    return None
+
+
+def _eval_inv(self, inv, fr, k):
+    """Evaluate a loop invariant (SpecPy function whose parameters name
+    locals of the function, plus ``k``, the number of completed iterations)."""
+    f = inv
+    node = func_ast(f) if not getattr(f, '__name__', '') == '<lambda>' else find_lambda(f)
+    names = [a.arg for a in node.args.args]
+    args = []
+    for nm in names:
+        if nm == 'k':
+            args.append(T(Val.VInt(k)) if z3.is_expr(k) else C(k))
+        elif nm in fr.locals:
+            args.append(fr.locals[nm])
+        else:
+            raise Unsupported('loop invariant names unknown local %r' % nm)
+    old_fc, old_pc = self.fail_conds, getattr(self, 'pre_conds', None)
+    self.fail_conds, self.pre_conds = None, None
+    self.merge += 1
+    try:
+        r = self.call_function(f, args, {})
+    finally:
+        self.merge -= 1
+        self.fail_conds, self.pre_conds = old_fc, old_pc
+    return _zb(self.truth(r))
+
+
+def _loop_cut(self, st, it, fr, inv, ordinal):
+    spec = inv if isinstance(inv, dict) else {'inv': inv}
+    invf = spec['inv']
+    n, elem = self._elem_source(it, st)
+    n = z3.simplify(n)
+    self.path.assume(n >= 0)
+    # entry
+    self.require(self._eval_inv(invf, fr, z3.IntVal(0)), 'loop%d:entry' % ordinal)
+    # havoc what the body may change
+    mod = _assigned_names(st.body) | set(spec.get('modifies_locals', ()))
+    for nm in sorted(mod):
+        if nm in fr.locals:
+            fr.locals[nm] = T(self.path.fresh('hv_' + nm))
+    for attr in spec.get('modifies_heap', ()):
+        if attr == '$dyn':
+            from . import symclass
+            self.path.heap['$dyn'] = self.path.fresh('hvDYN', symclass.DYN_SORT)
+        else:
+            self.path.heap[attr] = self.path.fresh('hvH_' + attr, z3.ArraySort(z3.IntSort(), vals.VS))
+    k = self.path.fresh('k', z3.IntSort())
+    which = self.path.choose([z3.BoolVal(True), z3.BoolVal(True)], ['loop%d:iteration' % ordinal, 'loop%d:exit' % ordinal])
+    if which == 0:
+        self.path.assume(z3.And(k >= 0, k < n))
+        self.path.index(k, n)
+        self.path.assume(self._eval_inv(invf, fr, k))
+        self.assign(st.target, elem(k), fr)
+        try:
+            self.exec_block(st.body, fr)
+        except _Continue:
+            pass
+        except _Break:
+            return None
+        self.require(self._eval_inv(invf, fr, k + 1), 'loop%d:preserve' % ordinal)
+        raise PathAbort()
+    self.path.assume(k == n)
+    self.path.assume(self._eval_inv(invf, fr, n))
+    self.exec_block(st.orelse, fr)
+    return None
+
+
+Engine._loop_ordinal = _loop_ordinal
+Engine.symbolic_for = _symbolic_for
+Engine._eval_inv = _eval_inv
+Engine._loop_cut = _loop_cut
